@@ -28,7 +28,8 @@ with rename_step (r : bytes -> bytes) (s : step) : step :=
 Fixpoint fi_rename (r : bytes -> bytes) (x : fi) : fi :=
   match x with FI s p n a l ch => FI s p (r n) a l (map (fi_rename r) ch) end.
 
-(* execution-only annotations (what a generated body logs / raises, its argument expressions) *)
+(* execution-only annotations (what a generated body logs / raises, its argument expressions; since fix F30 the NUMBER of
+   explicit arguments of a plain call is read by the analysis - they are unbound - and is kept) *)
 Fixpoint strip_fn (f : fn) : fn :=
   match f with Fn name _ _ lines params annot cls bds => Fn name [] None lines params annot cls (strip_bodies bds) end
 with strip_bodies (b : bodies) : bodies :=
@@ -39,7 +40,7 @@ with strip_steps (s : steps) : steps :=
   match s with SNil => SNil | SCons x t => SCons (strip_step x) (strip_steps t) end
 with strip_step (s : step) : step :=
   match s with
-  | SCall l e g _ => SCall l e (strip_fn g) []
+  | SCall l e g a => SCall l e (strip_fn g) (map (fun _ => ELit VNone) a)
   | SRef l g _ => SRef l (strip_fn g) false
   | SApply g => SApply (strip_fn g)
   | SKeep l e p g pos kw => SKeep l e p (strip_fn g) (map (fun ea => (ELit VNone, snd ea)) pos)
